@@ -9,6 +9,7 @@ Lemma classify_safe_safe_b : forall e,
 Proof.
   intros e H. unfold classify in H.
   destruct (existsb is_unrecognised (v_acc e) || existsb is_unknown_scratch (v_acc e)); [destruct H; discriminate|].
+  destruct (has_toggle e); [destruct H; discriminate|].
   destruct (existsb is_attr (v_acc e)).
   { destruct (forallb attr_const (v_acc e)); destruct H; discriminate. }
   destruct (safe_b (sample_threads e)) eqn:E; [reflexivity|].
@@ -41,6 +42,7 @@ Theorem classified_racy_witness : forall e,
 Proof.
   intros e H. unfold classify in H.
   destruct (existsb is_unrecognised (v_acc e) || existsb is_unknown_scratch (v_acc e)); [discriminate|].
+  destruct (has_toggle e); [discriminate|].
   destruct (existsb is_attr (v_acc e)).
   { destruct (forallb attr_const (v_acc e)); discriminate. }
   destruct (safe_b (sample_threads e)).
